@@ -342,6 +342,7 @@ type txRun struct {
 	mined   map[int]*WBlock
 	restarts []time.Duration
 	done    bool
+	onMine  func(b int, blk *WBlock) // called after the block is created, before it is announced
 }
 
 type issuedDelivery struct {
@@ -610,12 +611,16 @@ func (tr *txRun) mine(b int) {
 		p.Best = blk
 	}
 	simrt.Eventf("scenario", "mine B%d %s with %d txs", b, blk, len(txs))
+	if tr.onMine != nil {
+		tr.onMine(b, blk)
+	}
 	ns.Trusted.SetBest(blk)
 	ns.Touch()
 }
 
 func (tr *txRun) restart() {
 	ns := tr.ns
+	simrt.Sleep(1500 * time.Millisecond) // let in-flight requests settle: a clean stop at a quiescent point
 	tr.c.FaultFired("F-restart")
 	simrt.Eventf("scenario", "clean restart")
 	tr.restarts = append(tr.restarts, ns.S.Now())
